@@ -250,7 +250,7 @@ func runHist(id string, c *histCase) {
 		}
 	}
 	n, err := d.CountUploads()
-	hx.Printf("obs %s uploads n=%d err=%v\n", id, n, err != nil)
+	hx.Printf("obs %s uploads n=%d err=%v wf=1\n", id, n, err != nil)
 
 	cl := &storage.Client{BaseURL: server.URL}
 	for j, q := range c.qs {
@@ -380,9 +380,10 @@ var fnames = []string{"", "f.txt", "g.txt", "d/h.txt", "a b.txt", `d\w.txt`, "f.
 
 type gen struct {
 	r *hx.Rand
-	// findings switches the classes of the recorded findings on (values with a leading blank from the
-	// server, CR CR LF line ends, empty name-derived label values)
-	findings bool
+	// findings switches one class of recorded findings on: 1 = label values the printer/reader pair
+	// does not preserve (leading blank from the server, CR CR LF line ends), 2 = empty name-derived
+	// label values
+	findings int
 }
 
 func (g *gen) name() string {
@@ -391,7 +392,7 @@ func (g *gen) name() string {
 	for k := r.Intn(3); k > 0; k-- {
 		n += hx.Pick(r, subs)
 	}
-	if g.findings && r.Chance(1, 3) {
+	if g.findings == 2 && r.Chance(1, 3) {
 		n += hx.Pick(r, []string{"/", "/a=", "/=v", "/z="})
 	}
 	if r.Chance(1, 40) {
@@ -415,7 +416,7 @@ func (g *gen) file(tags map[string]bool) string {
 	for k := r.Intn(3); k > 0; k-- {
 		names = append(names, g.name())
 	}
-	if g.findings && r.Chance(1, 4) {
+	if g.findings == 2 && r.Chance(1, 4) {
 		names = append(names, "")
 	}
 	nb := 0
@@ -432,7 +433,7 @@ func (g *gen) file(tags map[string]bool) string {
 				sep = "\t"
 			}
 			e := eol
-			if g.findings && r.Chance(1, 10) {
+			if g.findings == 1 && r.Chance(1, 10) {
 				e = "\r" + eol
 			}
 			fmt.Fprintf(&b, "Benchmark%s%s%d %d ns/op%s", n, sep, 1+r.Intn(3), r.Intn(100), e)
@@ -449,7 +450,7 @@ func (g *gen) file(tags map[string]bool) string {
 			}
 			sep := hx.Pick(r, []string{": ", ": ", ":\t", ":   "})
 			e := eol
-			if g.findings && r.Chance(1, 8) {
+			if g.findings == 1 && r.Chance(1, 8) {
 				e = "\r" + eol
 			}
 			b.WriteString(k + sep + hx.Pick(r, vals) + e)
@@ -608,7 +609,7 @@ func (g *gen) hist(mode int) *histCase {
 		seq++
 		ids = append(ids, fmt.Sprintf("%s.%d", day, seq))
 		u := uploadIn{day: day, user: hx.Pick(r, users)}
-		if g.findings && r.Chance(1, 4) {
+		if g.findings == 1 && r.Chance(1, 4) {
 			u.user = " sp"
 		}
 		nf := 1 + r.Intn(3)
@@ -617,7 +618,7 @@ func (g *gen) hist(mode int) *histCase {
 		}
 		for j := 0; j < nf; j++ {
 			f := fileIn{name: hx.Pick(r, fnames)}
-			if g.findings && r.Chance(1, 3) {
+			if g.findings == 1 && r.Chance(1, 3) {
 				f.name = " f.txt"
 			}
 			switch mode {
@@ -658,8 +659,8 @@ func (g *gen) hist(mode int) *histCase {
 	for t := range tags {
 		c.tags = append(c.tags, t)
 	}
-	if g.findings {
-		c.tags = append(c.tags, "findings")
+	if g.findings != 0 {
+		c.tags = append(c.tags, fmt.Sprintf("findings%d", g.findings))
 	}
 	sort.Strings(c.tags)
 	return c
@@ -731,7 +732,7 @@ func main() {
 		rec(nil)
 	}
 	alpha2 := []byte("ab:<>| \t\"\\")
-	for n := hx.N(1500, 40000) / nshards; n > 0; n-- {
+	for n := hx.N(3000, 60000) / nshards; n > 0; n-- {
 		mk := func(max int) string {
 			b := make([]byte, r.Intn(max))
 			for i := range b {
@@ -746,7 +747,7 @@ func main() {
 		emit(swLine(next(), mk(12), add))
 	}
 	// histories
-	nh := hx.N(160, 4000) / nshards
+	nh := hx.N(480, 6400) / nshards
 	for i := 0; i < nh; i++ {
 		mode := 0
 		switch {
@@ -755,7 +756,13 @@ func main() {
 		case i%40 == 23:
 			mode = 2
 		}
-		g.findings = os.Getenv("VERIF_C19_FINDINGS") != "0" && i%8 == 5
+		g.findings = 0
+		if os.Getenv("VERIF_C19_FINDINGS") != "0" && i%8 == 5 {
+			g.findings = 1 + (i/8)%2
+		}
+		if os.Getenv("VERIF_C19_FINDINGS") == "0" && mode == 2 {
+			mode = 0
+		}
 		emit(g.hist(mode).encode(next()))
 	}
 }
